@@ -152,8 +152,8 @@ func runC20(r *Run) {
 	r.rule("C20.R4", "result admission: common guards, phase-one and phase-two guards with their window classes; the guards' arguments are the written key's components", 24)
 	r.rule("C20.R5", "challenge admission: task and result exist, hashes match, not yet challenged (same operator/task/id as recorded), window classes", 8)
 	r.rule("C20.R6", "epoch-end statistics: selection predicate, grouping key, signer list, difference, one write per group", 12)
-	r.rule("C20.R7", "who-may-write: each AVS family has exactly its named direct writer(s)", 12)
-	r.rule("C20.R8", "key-constructor role order agrees between the writer and the readers of task, result and challenge records", 10)
+	r.rule("C20.R7", "who-may-write: each AVS family has exactly its named direct writer(s)", 8)
+	r.rule("C20.R8", "key-constructor role order agrees between the writer and the readers of task, result and challenge records", 8)
 
 	avs := "x/avs/keeper"
 	var curV *FnView // the function under analysis (for argIs)
